@@ -120,6 +120,12 @@ CLAIMED["C11"] = dict(text="Bounded symbolic exploration of the real gen_params 
                   "molecule captured at the writer.",
              design="DESIGN.md 4/C11", technique="symbolic execution of the real Python code with z3 (symx): selector-only round-trip over formats with real files",
              note="values are concrete (this is a format round trip); force field of three block kinds with bonds/constraints/guards/versions/exclusions/citations; <= 3 (quick) / 4 (thorough) residues; number formatting beyond 6 decimals is outside. " + NOTE_COMMON)
+CLAIMED["C15"] = dict(text="Bounded symbolic model checking over symbolic reals of the real virtual-site constructions against independently written GROMACS formulas "
+                  "(weights for 2/3/n/3out, defining relations for 3fd, formula identity with abstracted norms for 3fad/4fdn), of the dihedral sign convention, of "
+                  "the optimisation verdict with arbitrary optimiser results (tolerances on bonds, constraints, angles; virtual sites renewed), of residue "
+                  "grouping by hash over every atom naming/order/bonding of a three-atom residue, and of build-file template/volume precedence.",
+             design="DESIGN.md 4/C15", technique="symbolic execution of the real Python code with z3 (symx): QF_NRA obligations for the geometry, selectors for residue definitions and build files",
+             note="scipy.optimize.minimize replaced by arbitrary positions; norms abstracted for two constructions; residues of <= 3 atoms for grouping; Kamada-Kawai layout and the optimiser's convergence are outside; reals not floats (tolerances relaxed by 1e-9). " + NOTE_COMMON)
 NOT_YET = {}
 def main():
     props = [json.loads(l) for l in open(os.path.join(ROOT, "properties.jsonl"))]
